@@ -16,10 +16,10 @@ CHECKS = {
          "Every contains answer of the workload (same corpus and random families as C02) is compared with exact containment; each call is traced through the verif hook and a wrong answer is attributed to the leaf decisions that disagree with their own oracle. Wrong answers are reported unless they are one of the listed known findings: F5/F4 (matched by a committed snapshot of 312516 enumerated corpus cases, and by decision site on random cases) or F24 (covered hole, matched by an exact predicate).",
          "Trusted: internal/exact.Contains and the leaf oracles; the tracer hook (tag verif) only reports, it never changes results.", "6 C03"),
  "C04": ("reference-model monitor: brute-force segment search oracle + oracle-free cross-index comparison of predicates and moved shapes",
-         "Every Search call is compared, as a multiset of (index, segment) callbacks, with a brute-force scan of the index-free series using the harness' own box test; early stop is checked at four stop positions; sizes cross every item-width and node-split boundary up to 70000 points; predicates and Move()d shapes are compared across index configurations.",
+         "Every Search call is compared, as a multiset of (index, segment) callbacks, with a brute-force scan of the index-free series using the harness' own box test; early stop is checked at four stop positions; sizes cross every item-width and node-split boundary up to 70000 points; predicates and Move()d shapes are compared across index configurations. Layouts include same-signed ordinates of 1e308..1.7e308 (Min+Max overflows).",
          "Trusted: NumSegments/SegmentAt of the index-free series (checked separately by C18); index bytes are never decoded.", "6 C04"),
  "C05": ("totality monitors: recover()-based panic monitor, step-budget hook in the Line.ContainsLine walk, no-progress watchdog with isolated confirmation, Parse object-xor-error, journal for process-fatal events (thorough tier under -race/checkptr)",
-         "All 22 operation groups (every method of Object, Spatial, Collection, geometry.Geometry, Series) are executed on ordered pairs of degenerate constructor objects, random trees, adversarial line pairs and parsed objects; Parse is driven with grammar documents, every structural mutant class, byte corruptions, every-offset truncations and nesting up to 5000/10000 under 17 option combinations. A panic, an exceeded step budget, a confirmed hang, a crash or a (nil,nil)/(obj,err) result is a violation.",
+         "All 22 operation groups (every method of Object, Spatial, Collection, geometry.Geometry, Series) are executed on ordered pairs of degenerate constructor objects, random trees, adversarial line pairs and parsed objects; Parse is driven with grammar documents, every structural mutant class, byte corruptions, every-offset truncations and nesting up to 5000/10000 under 17 option combinations. A panic, an exceeded step budget, a confirmed hang, a crash or a (nil,nil)/(obj,err) result is a violation. One accepted or rejected text in three is parsed a second time straight away under the same options (must return, same outcome).",
          "'Never loops forever' is restated as bounded progress (step budget + 90 s no-progress watchdog); unbounded liveness is out of reach of any finite run.", "6 C05"),
  "C06": ("round-trip monitor: Parse/JSON/Parse fixpoint + differential comparison of the output with an independent reading of the input",
          "Each accepted grammar-generated text is serialised, reparsed and reserialised (byte equality, same Go kind, equal predicate answers against 14 probes) and the output is decoded by the reference reader and compared with the reference reading of the input: type, x/y bit for bit, z/m, child order, ordered foreign members, properties on Features. Known finding F10 (Circle objects) is matched narrowly.",
@@ -31,16 +31,16 @@ CHECKS = {
          "Each generated document is parsed under the default options and under index-option, representation-option and RequireValid sets (thresholds 0,1,n,n+1,64; all index kinds); JSON, rectangle, emptiness, validity, point count, Go kind and the predicate answers against 14 probes in both operand orders must not change (kind and point count only for index options); Circle features must stay Circles; RequireValid must reject exactly when some object of the default parse tree reports itself invalid and must return only valid objects.",
          "Trusted: nothing beyond the default-options parse as reference.", "6 C08"),
  "C09": ("algebraic-law monitor (oracle-free) over ordered pairs of all 12 object kinds, with tracer attribution of failed consequences",
-         "Duality, symmetry, contains=>intersects and rect-covers, intersects=>rects-meet, self-containment, and the transparency of Feature / Rect / SimplePoint / leaf objects are asserted literally on every generated pair (144 kind combinations, nested collections, constructor and Parse builds). Circle pairs are asserted only outside a band where its two code paths may legitimately differ (counted inconclusive). Failures are attributed to known findings F4/F5/F15 narrowly or reported.",
+         "Duality, symmetry, contains=>intersects and rect-covers, intersects=>rects-meet, self-containment, and the transparency of Feature / Rect / SimplePoint / leaf objects are asserted literally on every generated pair (144 kind combinations, nested collections, constructor and Parse builds). Circle pairs are asserted only outside a band where its two code paths may legitimately differ (counted inconclusive). Failures are attributed to known findings F4/F5/F15 narrowly or reported. A circle that contains a point at most 0.99 of its radius away must cover it with its rectangle (circles sharing four radii over latitudes -40..40).",
          "Trusted: nothing beyond the laws themselves; the tracer hook is used only to attribute.", "6 C09"),
  "C10": ("reference-model monitor: brute-force composition oracle over Children() using the library's own leaf-against-leaf answers",
          "Intersects, Contains, Within, Empty, Rect, NumPoints, child order and child Search (set equality, early stop) of collections with 0..200 children are compared with the statement's definitions evaluated by brute force; built by constructors and by Parse under child-index thresholds {0,1,count,count+1,64}; indexed and unindexed builds are compared directly.",
          "Trusted: leaf-against-leaf predicate answers of the library (judged by C01-C03). Known finding F15 is matched when a Feature wraps a collection.", "6 C10"),
  "C11": ("reference-model monitor: direct min/max, range and emptiness computation over a harness-side object model, constructors and Parse paths",
-         "Rect, Center, Valid and Empty of every object and nested object of generated trees (all kinds, special float values, empties, single-child collections, exhaustive short sequences) are compared with values computed directly from the model's positions. Known findings F20/F21 are matched by narrow predicates.",
+         "Rect, Center, Valid and Empty of every object and nested object of generated trees (all kinds, special float values, empties, single-child collections, exhaustive short sequences) are compared with values computed directly from the model's positions. Known findings F20/F21 are matched by narrow predicates. Every LineString and Polygon is also translated through Base().Move() after it has been queried, re-wrapped and judged against the translated model.",
          "Trusted: the harness' own model tree (props/model.go).", "6 C11"),
  "C12": ("metamorphic monitor (oracle-free): answers before and after exact transformations and re-encodings must be equal; exact oracle and tracer only to attribute a difference",
-         "For each contact-biased valid pair the four predicate answers are recomputed under 12 exact affine maps of both shapes, under Move(), every rotation of each ring's start vertex, reversal, hole re-ordering and closing-vertex toggling; any change is a violation unless the wrong side is explained by the listed decision sites of F4/F5 or by F24.",
+         "For each contact-biased valid pair the four predicate answers are recomputed under 12 exact affine maps of both shapes, under Move(), every rotation of each ring's start vertex, reversal, hole re-ordering and closing-vertex toggling; any change is a violation unless the wrong side is explained by the listed decision sites of F4/F5 or by F24. Collections, nested collections and Features are compared at object level under seven exact maps; a difference counts only when the composition of the leaf answers is unchanged.",
          "Trusted: exactness of the transformations on the lattice domain (inexact ones are skipped and counted).", "6 C12"),
  "C13": ("reference-model monitor: 3-vector great-circle reference with tolerance bands, controlled-distance probes, path-agreement and serialisation checks",
          "Each generated circle is probed by points placed at controlled reference distances around its rim (decided only outside +-tol), through Point and SimplePoint and both operand orders; monotonicity in the radius, circle/circle containment and intersection around their boundaries, exact JSON layout and reparse (m, km), and the polygon approximation's closedness/centring are checked. Known finding F22 is matched with a magnitude bound.",
